@@ -4,8 +4,14 @@
   Store level (ids, `Store::make`, `ReManager::make/complement`, all histories): Props/C07Store.lean.
   Tree level (terms built by the public constructors, all id assignments): Props/C07Tree.lean.
   The two joined by a theorem — a stateful, id-allocating model of `ReManager` (table + derivative
-  cache) refines the tree model: Props/C07Refine.lean.
+  cache) refines the tree model: Props/C07Refine.lean (constructors, cached derivatives, programs),
+  Props/C07RefineOps.lean (every other allocating operation: class/set derivatives, the derivative
+  closure searches, start_char, compile, regex search/replace) and Props/C07RefineOpsFinal.lean
+  (the latter composed with the language theorems C02/C05/C10/C18/C19: end-to-end statements about
+  the stateful manager).
 -/
 import SmtModel.Props.C07Store
 import SmtModel.Props.C07Tree
 import SmtModel.Props.C07Refine
+import SmtModel.Props.C07RefineOps
+import SmtModel.Props.C07RefineOpsFinal
